@@ -649,3 +649,60 @@ def r3_10(rep):
               "the width is recomputed (`%s`) instead of being read from the declaration" % (other[0].get("name") or other[0].get("callee")), b.loc(b.root))
     if not somes:
         rep.bad("width:from-libclang", "no result of Cursor::bit_width is `Some(clang_getFieldDeclBitWidth(self.x) ..)`: %s" % tsrc[:100], b.loc(b.root))
+
+
+@RULES.rule("R3.11", "a type's layout is the one libclang recorded for that very type; anything derived is only a fall-back", floor=2)
+def r3_11(rep):
+    """`typedef unsigned short __attribute__((aligned(1))) u16_unaligned;` has its own alignment (1), recorded on the typedef.  The
+    bit-field allocator asks `Type::layout` of the DECLARED type to decide whether a field straddles its storage unit; answering
+    with the aliased type's layout first (align 2) makes it move a field that C leaves in place, while later fields keep libclang's
+    offsets: `kind` becomes bits 8..20 instead of 0..12 and overlaps its neighbours, with every size assertion still passing."""
+    prog = rep.prog
+    b = rep.need(prog.fn("ir::ty::Type::layout"), "Type::layout")
+    # every way out: the recorded layout first
+    early = [n for n in b.nodes if n["k"] == "Ret" and not any(a["k"] == "Closure" for a in b.ancestors(n))]
+    rep.check(not early, "layout:no-exit-before-recorded", "nothing is returned before the recorded layout is consulted" if not early else
+              "`return %s` comes before `self.layout`: a typedef or reference with its own alignment answers with its target's" %
+              b.canon(early[0].get("e", {}), 3)[:60], b.loc(early[0]) if early else b.loc(b.root))
+    tail = strip(b.root.get("tail") or {})
+    first = tail
+    while first.get("k") == "MCall" and first.get("name") in ("or_else", "or", "map", "and_then", "filter"):
+        first = strip(first["recv"])
+    d = b.local_def.get(strip(first.get("base", {})).get("id")) if first.get("k") == "Field" else None
+    ok = first.get("k") == "Field" and first.get("f") == "layout" and bool(d) and d[0][0] == "param" and d[0][1] == 0
+    rep.check(ok, "layout:recorded-first", "`self.layout` is the first alternative" if ok else
+              "the result starts from `%s`, not from the layout recorded for this type" % b.canon(first, 3)[:60], b.loc(b.root))
+
+
+@RULES.rule("R3.12", "the layout tracker hears about a base class exactly when a `_base` field is emitted for it", floor=1)
+def r3_12(rep):
+    """The tracker's running offset decides how much explicit padding goes in front of a bit-field unit (R3.9).  Counting an empty or
+    virtual base that gets no field (`saw_base` hoisted above the `requires_storage` test) makes the offset one byte too large:
+    `struct Rec : Tagged { char kind; unsigned long long serial:60; .. }` gets 6 bytes of padding instead of 7 and every accessor of
+    the run is one byte off, with size and alignment unchanged."""
+    prog = rep.prog
+    b = rep.need(prog.impl_fn("codegen::CodeGenerator", "ir::comp::CompInfo", "codegen"), "<CompInfo as CodeGenerator>::codegen")
+    loops = [n for n in b.nodes if n["k"] == "For" and "CompInfo::base_members" in b.canon(n["iter"], 4)]
+    loops = [l for l in loops if any(x["k"] == "MCall" and x.get("name") == "saw_base" for x in b.walk(l["body"]))]
+    rep.need(loops, "the loop over base_members that calls saw_base")
+    for l in loops:
+        sb = [x for x in b.walk(l["body"]) if x["k"] == "MCall" and x.get("name") == "saw_base"]
+        pushes = [x for x in b.walk(l["body"]) if x["k"] == "MCall" and x.get("name") == "push" and
+                  any(y["k"] == "Local" and "TokenStream" in (b.ty(y) or "") or (b.macro_name(y) or "") == "quote" for y in b.walk(x))]
+        rep.need(pushes, "the push of the `_base` field in that loop")
+
+        def cond_key(n):
+            out = []
+            for pol, kind, g in b.guards(n, nested=True):
+                if any(a is l for a in b.ancestors(g if kind == "cond" else (g[0] if kind in ("arm", "notarm") else l))) or kind != "cond":
+                    if kind == "cond":
+                        out.append(("" if pol else "!") + b.canon(g, 5))
+                    elif kind in ("arm", "notarm"):
+                        out.append("%s:%s#%d" % (kind, b.canon(g[0]["scrut"], 4), g[1]))
+            return sorted(set(out))
+        for x in sb:
+            kx = cond_key(x)
+            kp = cond_key(pushes[0])
+            rep.check(kx == kp, "saw_base-iff-field", "saw_base and the field push run under the same conditions (%d)" % len(kx) if kx == kp else
+                      "saw_base runs under %s, the `_base` field is pushed under %s: bases without storage are counted in the running offset"
+                      % (kx or ["no condition"], kp), b.loc(x))
